@@ -19,6 +19,7 @@ M = [
  ("control-delivery-via-take", "src/sentence.rs", "                let mut data = AisRawData::default();\n                lib::std::mem::swap(&mut data, &mut self.data);\n                ais_sentence.data = data;", "                ais_sentence.data = lib::std::mem::take(&mut self.data);", "none (equivalent: mem::take instead of swap on delivery; control, must NOT be reported) C05 C06 C17 C07 C18"),
  ("control-trim-order-equivalent", "src/messages/parsers.rs", "                    val.trim_start()\n                        .trim_end_matches('@')\n                        .trim_end()\n                        .to_string(),", "                    val.trim_end_matches('@')\n                        .trim_end()\n                        .trim_start()\n                        .to_string(),", "none (the three trimming steps commute when the leading step is applied last: equivalent; control, must NOT be reported) C13 C14"),
  ("control-checksum-before-fields", "src/sentence.rs", "        let (_, (data, mut ais_sentence, checksum)) = parse_nmea_sentence(line)?;\n        Self::check_checksum(data, checksum)?;", "        // verify the checksum before looking at the fields\n        if matches!(line.first(), Some(b'!') | Some(b'$')) {\n            let body = &line[1..];\n            if let Some(star) = body.iter().position(|&c| c == b'*') {\n                let mut value: u32 = 0;\n                let mut n = 0;\n                for &c in body[star + 1..].iter().take(8) {\n                    match (c as char).to_digit(16) {\n                        Some(d) => {\n                            value = value * 16 + d;\n                            n += 1;\n                        }\n                        None => break,\n                    }\n                }\n                if n > 0 && value <= 0xff {\n                    Self::check_checksum(&body[..star], value as u8)?;\n                }\n            }\n        }\n        let (_, (data, mut ais_sentence, checksum)) = parse_nmea_sentence(line)?;\n        Self::check_checksum(data, checksum)?;", "none (benign reordering: the checksum is verified before the fields, so a malformed line with a wrong checksum gets a CHECKSUM error; control, must NOT be reported) C02 C08 C07 C17 C01"),
+ ("control-t15-report-empty-second-request", "src/messages/interrogation.rs", "            if message.message_type != 0 || message.slot_offset.is_some() {\n                push_unwrap(&mut messages, message);\n            }", "            push_unwrap(&mut messages, message);", "none (benign: an all-zero second request of a type-15 station is reported instead of dropped - the statement does not say; control, must NOT be reported) C14 C04 C11 C01"),
  ("cksum-low-nibble", "src/sentence.rs", "if expected_checksum != received_checksum {", "if expected_checksum & 0x7f != received_checksum & 0x7f {", "C02 C08"),
  ("cksum-bypass-on-continuation", "src/sentence.rs", "        Self::check_checksum(data, checksum)?;\n", "        if ais_sentence.fragment_number <= 1 {\n            Self::check_checksum(data, checksum)?;\n        }\n", "C02"),
  ("cksum-error-fields-swapped", "src/sentence.rs", "                expected: expected_checksum,\n                found: received_checksum,", "                expected: received_checksum,\n                found: expected_checksum,", "C02"),
